@@ -618,7 +618,7 @@ class XsdAnyElement(XsdWildcard, ParticleMixin,
         elif self.namespace == other.namespace:
             return bool(self.namespace)
         elif '##any' in self.namespace or '##any' in other.namespace:
-            return True
+            return bool(self.namespace and other.namespace)
         elif '##other' in self.namespace:
             return any(ns and ns != self.target_namespace for ns in other.namespace)
         elif '##other' in other.namespace:
